@@ -74,6 +74,22 @@ func runC03(c *ctx) {
 			if k.mem[i] != "" {
 				c.diffEval("-"+k.mem[i], input, "neg/"+k.kind)
 			}
+			// stacked negations: each one checks its operand (nothing may be cancelled away)
+			for _, pre := range []string{"--", "---", "- -", "-(-", "----"} {
+				suf := ""
+				if pre == "-(-" {
+					suf = ")"
+				}
+				c.diffEval(pre+"("+l+")"+suf, input, "neg/stacked/"+k.kind)
+				if k.kind != "num" || l[0] != '-' {
+					c.diffEval(pre+l+suf, input, "neg/stacked/"+k.kind)
+				}
+				if k.mem[i] != "" {
+					c.diffEval(pre+k.mem[i]+suf, input, "neg/stacked/"+k.kind)
+					c.diffEval(pre+k.mem[i]+suf+" & \"!\"", input, "neg/stacked/"+k.kind)
+					c.diffEval("1 - "+pre+k.mem[i]+suf, input, "neg/stacked/"+k.kind)
+				}
+			}
 			for _, k2 := range c03Kinds {
 				for _, r := range k2.lits {
 					c.diffEval("["+l+".."+r+"]", input, "range/"+k.kind+"/"+k2.kind)
